@@ -20,13 +20,13 @@ theorem isFl_false_of {x : Nat} {m : Msg} (h : ∀ y, Msg.flow? m = some y → y
 /-- A step of endpoint `a` whose footprint is `Y` (and which may have consumed the head of the
     incoming path, a message of a flow in `Y`): it suffices to re-establish the phase of the flows
     in `Y`. -/
-theorem inv_of_eff {p : PS} (h : Inv p) {Y : Nat → Prop} {e' : EP} {g' : Ghost} {ba' : List Msg}
+theorem inv_of_eff {p : PS} (h : InvCore p) {Y : Nat → Prop} {e' : EP} {g' : Ghost} {ba' : List Msg}
     (s : Eff Y p.a e')
     (hba : ba' = p.ba ∨ ∃ m, p.ba = m :: ba' ∧ ∀ y, Msg.flow? m = some y → Y y)
     (hg : ∀ x, ¬ Y x → GhostAgree x p.a p.ga g') (hgf : GhostFresh e' g')
     {lk' : List Nat} (hlk : ∀ x, ¬ Y x → x ∈ lk' → x ∈ p.linked)
     (hY : ∀ x, Y x → PhaseL x { p with a := e', ga := g', ba := ba', linked := lk' }) :
-    Inv { p with a := e', ga := g', ba := ba', linked := lk' } := by
+    InvCore { p with a := e', ga := g', ba := ba', linked := lk' } := by
   have hab : ∀ x, ¬ Y x → fl x (p.ab ++ e'.outq) = fl x (p.ab ++ p.a.outq) := by
     intro x hx
     obtain ⟨em, he, hm⟩ := s.outq
@@ -57,54 +57,54 @@ theorem inv_of_eff {p : PS} (h : Inv p) {Y : Nat → Prop} {e' : EP} {g' : Ghost
     · exact Linked.congr (p := p) (ev_eq_of_eff s x hx (hg x hx)) rfl (hab x hx) (hbaeq x hx) (h.live x (hlk x hx hxl))
 
 /-- The special case of a step that concerns no flow. -/
-theorem inv_of_silent {p : PS} (h : Inv p) {e' : EP} (s : Eff (fun _ => False) p.a e') :
-    Inv { p with a := e' } := by
+theorem inv_of_silent {p : PS} (h : InvCore p) {e' : EP} (s : Eff (fun _ => False) p.a e') :
+    InvCore { p with a := e' } := by
   have hgf : GhostFresh e' p.ga := fun k hk => h.ghA k (Nat.le_trans s.len hk)
   exact inv_of_eff (g' := p.ga) (ba' := p.ba) (lk' := p.linked) h s (Or.inl rfl) (fun x _ => GhostAgree.refl x _ _) hgf
     (fun _ _ hh => hh) (fun x hx => absurd hx id)
 
 /-! ### Actions that concern no flow -/
 
-theorem inv_cancelOpen {p : PS} (h : Inv p) (req : Nat) :
-    Inv { p with a := { p.a with opens := p.a.opens.filter (·.req ≠ req) } } :=
+theorem inv_cancelOpen {p : PS} (h : InvCore p) (req : Nat) :
+    InvCore { p with a := { p.a with opens := p.a.opens.filter (·.req ≠ req) } } :=
   inv_of_silent h (Eff.silent rfl rfl rfl rfl rfl rfl rfl rfl rfl)
 
-theorem inv_accept {p : PS} (h : Inv p) : Inv { p with a := (appAccept p.a).1 } :=
+theorem inv_accept {p : PS} (h : InvCore p) : InvCore { p with a := (appAccept p.a).1 } :=
   inv_of_silent h (appAccept_eff _ _)
 
 /-- … with a ghost update that leaves the stream logs alone. -/
-theorem inv_of_silent_g {p : PS} (h : Inv p) {e' : EP} (s : Eff (fun _ => False) p.a e') (g' : Ghost)
+theorem inv_of_silent_g {p : PS} (h : InvCore p) {e' : EP} (s : Eff (fun _ => False) p.a e') (g' : Ghost)
     (hw : g'.wlog = p.ga.wlog) (hr : g'.rlog = p.ga.rlog) (he : g'.eof = p.ga.eof) :
-    Inv { p with a := e', ga := g' } := by
+    InvCore { p with a := e', ga := g' } := by
   have hgf : GhostFresh e' g' := fun k hk => by rw [hw, hr, he]; exact h.ghA k (Nat.le_trans s.len hk)
   exact inv_of_eff (g' := g') (ba' := p.ba) (lk' := p.linked) h s (Or.inl rfl) (fun x _ k _ => by rw [hw, hr, he]; exact ⟨rfl, rfl, rfl⟩) hgf
     (fun _ _ hh => hh) (fun x hx => absurd hx id)
 
-theorem inv_sendDgram {p : PS} (h : Inv p) (d : Dgram) :
-    Inv { p with a := (appSendDgram p.a d).1,
-                 ga := match (appSendDgram p.a d).2 with
-                       | .unit => { p.ga with dsent := p.ga.dsent ++ [d] }
-                       | _ => p.ga } := by
+theorem inv_sendDgram {p : PS} (h : InvCore p) (d : Dgram) :
+    InvCore { p with a := (appSendDgram p.a d).1,
+                     ga := match (appSendDgram p.a d).2 with
+                           | .unit => { p.ga with dsent := p.ga.dsent ++ [d] }
+                           | _ => p.ga } := by
   refine inv_of_silent_g h (appSendDgram_eff _ _ _) _ ?_ ?_ ?_ <;> (cases (appSendDgram p.a d).2 <;> rfl)
 
-theorem inv_recvDgram {p : PS} (h : Inv p) :
-    Inv { p with a := (appRecvDgram p.a).1,
-                 ga := match (appRecvDgram p.a).2 with
-                       | .dgram d => { p.ga with drecv := p.ga.drecv ++ [d] }
-                       | _ => p.ga } := by
+theorem inv_recvDgram {p : PS} (h : InvCore p) :
+    InvCore { p with a := (appRecvDgram p.a).1,
+                     ga := match (appRecvDgram p.a).2 with
+                           | .dgram d => { p.ga with drecv := p.ga.drecv ++ [d] }
+                           | _ => p.ga } := by
   refine inv_of_silent_g h (appRecvDgram_eff _ _) _ ?_ ?_ ?_ <;> (cases (appRecvDgram p.a).2 <;> rfl)
 
-theorem inv_unpark {p : PS} (h : Inv p) : Inv { p with a := Mux.unpark p.a } :=
+theorem inv_unpark {p : PS} (h : InvCore p) : InvCore { p with a := Mux.unpark p.a } :=
   inv_of_silent h (unpark_eff _ _ h.runA.muxAlive)
 
-theorem inv_runDone {p : PS} (h : Inv p) :
-    Inv { p with a := (Mux.runDone { p.a with doneq := [] } (p.a.doneq.foldr insertDone [])).1 } :=
+theorem inv_runDone {p : PS} (h : InvCore p) :
+    InvCore { p with a := (Mux.runDone { p.a with doneq := [] } (p.a.doneq.foldr insertDone [])).1 } :=
   inv_of_silent h ((Eff.silent rfl rfl rfl rfl rfl rfl rfl rfl rfl : Eff _ p.a { p.a with doneq := [] }).trans
     (runDone_eff _ _ _))
 
 /-- The send loop hands the oldest queued message to the transport: the path is unchanged. -/
-theorem inv_xmit {p : PS} (h : Inv p) (m : Msg) (rest : List Msg) (hq : p.a.outq = m :: rest) :
-    Inv { p with a := { p.a with outq := rest }, ab := p.ab ++ [m] } := by
+theorem inv_xmit {p : PS} (h : InvCore p) (m : Msg) (rest : List Msg) (hq : p.a.outq = m :: rest) :
+    InvCore { p with a := { p.a with outq := rest }, ab := p.ab ++ [m] } := by
   refine ⟨⟨h.runA.outClosed, h.runA.muxAlive, h.runA.dead, h.runA.rwndPos, h.runA.rwndU32⟩, h.runB,
     h.sfA, h.sfB, h.nodup, h.nonzero, h.ghA, h.ghB, ?_, ?_⟩
   · intro x
@@ -151,7 +151,7 @@ theorem objView_congr (x : Nat) {e e' : EP} (h : e'.objs = e.objs) : objView x e
   funext k; simp [objView, h]
 
 /-- An id that is still in a script is fresh. -/
-theorem fresh_of_inRng {p : PS} (h : Inv p) (x : Nat) (hx : x ∈ p.a.rng ∨ x ∈ p.b.rng) :
+theorem fresh_of_inRng_core {p : PS} (h : InvCore p) (x : Nat) (hx : x ∈ p.a.rng ∨ x ∈ p.b.rng) :
     Fresh x (ev x p.a p.ga) (ev x p.b p.gb) (fl x (pathAB p)) (fl x (pathBA p)) := by
   have hp := h.phase x
   have ha : (ev x p.a p.ga).inRng = (x ∈ p.a.rng) := rfl
@@ -166,12 +166,12 @@ theorem fresh_of_inRng {p : PS} (h : Inv p) (x : Nat) (hx : x ∈ p.a.rng ∨ x 
     rcases hx with hx | hx <;> contradiction
 
 /-- `new_stream_channel` starts (or retries): the drawn id goes from fresh to requested. -/
-theorem inv_openRound {p : PS} (h : Inv p) (r : OpenReq) (hne : (openRound p.a r).1.rng ≠ []) :
-    Inv { p with a := (openRound p.a r).1 } := by
+theorem inv_openRound {p : PS} (h : InvCore p) (r : OpenReq) (hne : (openRound p.a r).1.rng ≠ []) :
+    InvCore { p with a := (openRound p.a r).1 } := by
   cases hq : p.a.rng with
   | nil => exact absurd (openRound_rng_nil p.a r hq) hne
   | cons y rest =>
-    have hfr := fresh_of_inRng h y (Or.inl (by rw [hq]; simp))
+    have hfr := fresh_of_inRng_core h y (Or.inl (by rw [hq]; simp))
     have h0 : y ≠ 0 := h.nonzero y (by rw [hq]; simp)
     have hfree : lookup p.a.flows y = none := hfr.sa
     have s := openRound_eff p.a r y rest hq h0 hfree h.runA.outClosed
